@@ -444,3 +444,31 @@ Proof.
   { intros a Ea. rewrite Ez in Ea. injection Ea as <-. now apply conv. }
   rewrite Ez in Ez'. injection Ez' as <-. exists dp, d. repeat split; auto.
 Qed.
+
+(* the sum and the difference of two NON-EMPTY operands never contain a negative zero: coefficient i is (0 + p_i) + q_i
+   resp. (0 + p_i) - q_i, and 0 + (-0) = +0 *)
+Lemma padd_psub_no_negzero_float_lemma (p q : list PrimFloat.float) (zs ws : list Z) :
+  Forall2 ExactW p zs -> Forall2 ExactW q ws -> p <> [] -> q <> [] ->
+  (Forall fitsZ (padd (A := AZ) zs ws) -> Forall2 Exact (padd (A := AF) p q) (padd (A := AZ) zs ws)) /\
+  (Forall fitsZ (psub (A := AZ) zs ws) -> Forall2 Exact (psub (A := AF) p q) (psub (A := AZ) zs ws)).
+Proof.
+  intros Hp Hq Np Nq. split.
+  - exact (gen_padd_ne _ _ _ EL_strong p q zs ws Hp Hq Np Nq).
+  - exact (gen_psub_ne _ _ _ EL_strong p q zs ws Hp Hq Np Nq).
+Qed.
+
+(* derivative_at: the n-th derivative evaluated at an integer point *)
+Lemma pderiv_at_exact_float_lemma (p : list PrimFloat.float) (zs dz : list Z) x xz n :
+  Forall2 ExactW p zs -> ExactW x xz -> pderiv_n (A := AZ) zs n = Ok dz -> dz <> [] ->
+  (forall k dk, (1 <= k <= n)%nat -> pderiv_n (A := AZ) zs k = Ok dk -> Forall fitsZ dk) ->
+  eval_fits dz xz ->
+  exists r, pderiv_at (A := AF) p x n = Ok r /\ ExactW r (horner (A := AZ) dz xz) /\
+            pderiv_at (A := AZ) zs xz n = Ok (horner (A := AZ) dz xz).
+Proof.
+  intros Hp Hx E Nd Hb He.
+  destruct (pderiv_n_exact_float_lemma p zs Hp n dz E Hb) as (d & Ed & Rd).
+  assert (Nd' : d <> []) by (intros ->; inversion Rd; subst; congruence).
+  destruct (peval_exact_float_lemma d dz x xz Rd Hx Nd' He) as (r & Er & Rr & _).
+  exists r. unfold pderiv_at. rewrite Ed, E. cbn [bind]. split; [exact Er|]. split; [exact Rr|].
+  exact (peval_horner AZ_ring dz xz Nd).
+Qed.
